@@ -245,8 +245,26 @@ func HarnessC27SelectPerm() {
 	for i := range as {
 		base[i] = zz27Record(as[i])
 	}
+	// Up to ALLPERMS records every permutation is tried. Above that only the identity and the n-1 adjacent
+	// transpositions: they generate the symmetric group, and since the records are arbitrary (the symbolic
+	// domain is closed under reordering) invariance under each generator for all inputs implies invariance
+	// under every permutation.
+	perms := zz27Perms(n)
+	if n > verifrt.Param("ALLPERMS", 3) {
+		perms = perms[:0]
+		id := make([]int, n)
+		for i := range id {
+			id[i] = i
+		}
+		perms = append(perms, id)
+		for t := 0; t+1 < n; t++ {
+			q := append([]int(nil), id...)
+			q[t], q[t+1] = q[t+1], q[t]
+			perms = append(perms, q)
+		}
+	}
 	var first []byte
-	for k, p := range zz27Perms(n) {
+	for k, p := range perms {
 		recs := make([]*Record, n)
 		vals := make([][]byte, n)
 		for i, src := range p {
